@@ -39,6 +39,14 @@ class OpaqueSound(Harness):
         return dict(qx0=qx0, qy0=qy0, cov=c, opacity=op, transparent=bool_var('transparent'))
 
     @classmethod
+    def native_variants(cls, ins):
+        # solver models like to put the request exactly on the coverage edge, where IEEE doubles may decide
+        # `contains` differently from exact arithmetic: also try the coverage grown by one unit
+        c = ins['cov']
+        yield dict(ins, cov=[c[0] - 1.0, c[1] - 1.0, c[2] + 1.0, c[3] + 1.0])
+        yield dict(ins, cov=[c[0] - 1000.0, c[1] - 1000.0, c[2] + 1000.0, c[3] + 1000.0])
+
+    @classmethod
     def prop(cls, ctx, cfg, qx0, qy0, cov, opacity, transparent):
         from mapproxy.srs import SRS
         w, g, ly, covm = ctx['w'], ctx['g'], ctx['ly'], ctx['cov']
@@ -314,6 +322,30 @@ class Compatible(Harness):
             b.transparent_color = (255, 255, 255)
         q = ly.MapQuery((0, 0, 10, 10), (10, 10), srs, 'image/png', dimensions={'elevation': elev})
         combined = a.combined_layer(b, q)
+        if diff == 'shared':
+            # everything equal (one coverage object, one resolution range): the combined source must still be limited like
+            # its parts -- same coverage (hence the coverage gate and the sub-query of C17), range, SRS list, formats, options
+            kw = dict(image_opts=_Opts(), supported_srs=SupportedSRS([srs]), supported_formats=['image/png'], coverage=a_cov,
+                      res_range=ctx['g'].resolution_range(min_res=100000, max_res=1000))
+            a = w.WMSSource(Client([], {'elevation'}), fwd_req_params={'elevation'}, transparent_color=(255, 255, 255), **kw)
+            b = w.WMSSource(Client([], {'elevation'}), fwd_req_params={'elevation'}, transparent_color=(255, 255, 255), **kw)
+            a.opacity = b.opacity = None
+            combined = a.combined_layer(b, q)
+            if combined is None:
+                return False
+            ok = combined.coverage is a_cov and combined.res_range == a.res_range and combined.supported_srs is a.supported_srs
+            ok = ok and combined.supported_formats == ['image/png'] and combined.fwd_req_params == {'elevation'}
+            ok = ok and combined.transparent_color == (255, 255, 255) and combined.image_opts is a.image_opts
+            # the coverage gate of the combined source: a request outside the coverage is never sent upstream
+            far = ly.MapQuery((cov[2] + 10, cov[3] + 10, cov[2] + 20, cov[3] + 20), (10, 10), srs, 'image/png')
+            ev = []
+            combined.client = RecClient(ev)
+            try:
+                combined.get_map(far)
+                return False
+            except ly.BlankImage:
+                pass
+            return ok and not ev
         if diff == 'none':
             return combined is not None
         if diff == 'coverage':
@@ -421,7 +453,7 @@ def obligations(tier, seed):
     specs.append(spec(MOD, 'SubImageLabel', 'padded-sub-image-is-labelled-transparent', cfg={}, cost=5))
     for n in ((2, 3, 4, 5) if tier == 'thorough' else (2, 3, 4)):
         specs.append(spec(MOD, 'Combine', 'combined-layers/n%d' % n, cfg=dict(n=n)))
-    for d in ('none', 'srs', 'formats', 'coverage', 'opacity', 'opacity-a', 'opacity-b', 'opacity-both', 'transparent_color', 'fwd', 'res_range'):
+    for d in ('none', 'shared', 'srs', 'formats', 'coverage', 'opacity', 'opacity-a', 'opacity-b', 'opacity-both', 'transparent_color', 'fwd', 'res_range'):
         specs.append(spec(MOD, 'Compatible', 'combine-compatible/%s' % d, cfg=dict(differs=d)))
     specs.append(spec(MOD, 'OpaquePruning', 'opaque-pruning-loop-of-the-wms-service', cfg={}, cost=5))
     twins = dict(OpaqueSound=ocfgs[0], FastPath={}, Combine=dict(n=3), Compatible=dict(differs='coverage'), SubImageLabel={}, OpaquePruning={})
